@@ -107,6 +107,7 @@ def run(ctx, driver):
                 "numeric_update_expressions": [s["update_expressions"] for s in (results[-1].get("solvers") or []) if s["solver"].startswith("numeric")] if isinstance(results[-1], dict) else None})
     _shared.corr_split(ctx, driver, cases, results)
     _shared.corr_subsys(ctx, driver, cases, results)
+    _shared.corr_from_ode(ctx, driver, cases, results)
     ctx.assumptions += [
         "SymPy contracts (denotation preserved): parse_expr, str (re-parse round trip in reconstitute_expr), expand, simplify / the user's simplify_expression, collect; term / sym is exact division of rational functions",
         "values are compared at random rational points (transcendental atoms at 40 digits); agreement is Schwartz-Zippel evidence for the correspondence, never a proof",
